@@ -250,6 +250,9 @@ def registry():
     add('BatchNorm', 'transform', lambda: T.BatchNorm(F4), S, batch_stats=True, random_ctor=True, note='running statistics')
     add('ActNorm', 'transform', lambda: T.ActNorm(F4), S, batch_stats=True, random_ctor=True, note='initialized flag + data-dependent init')
     add('ActNorm/image', 'transform', lambda: T.ActNorm(4), IMG, batch_stats=True)
+    # image shapes for which permute(0,2,3,1).reshape(-1, C) is a VIEW of the caller's tensor (single channel / single pixel)
+    add('ActNorm/image-C1', 'transform', lambda: T.ActNorm(1), (1, 3, 3), batch_stats=True)
+    add('ActNorm/image-1x1', 'transform', lambda: T.ActNorm(4), (4, 1, 1), batch_stats=True)
     # --- permutations / reshape / wrappers ----------------------------------------------------------
     add('RandomPermutation', 'transform', lambda: T.RandomPermutation(F4), S, random_ctor=True)
     add('ReversePermutation', 'transform', lambda: T.ReversePermutation(F4), S)
